@@ -70,6 +70,12 @@ def cases(tier, seed):
                     "find_step_size": True})
     for i, c in enumerate(out):
         c["split"] = i % 3 == 1
+    # the optimised / sampled parameters are those of a tree model that takes its starting values from the Newick string
+    # (keep_branch_lengths: what torchtree-cli writes for --keep, --brlens_init tree, --heights_init tree)
+    for o, kind in (("SGD", "unrooted"), ("Adam", "time")):
+        out.append({"algorithm": "optimizer", "optim": o, "scheduler": "none", "objective": "map", "tree_keep": kind, "dtype": "torch.float64", "nn": False, "definition": "tensor",
+                    "frequency": 2, "seed": int(rng.integers(2**31)), "split": False})
+    for i, c in enumerate(out):
         if c["algorithm"] == "optimizer" and c["objective"] == "map" and i % 2 == 1 and c["definition"] != "full_like":
             c["plate"] = True
             c["many"] = (i // 2) % 2 == 0
@@ -122,6 +128,18 @@ def optimizer_spec(case, rng, ckpt):
         spec += [{"id": "lik%d" % i, "type": "Distribution", "distribution": "torch.distributions.Normal", "x": "data", "parameters": {"loc": "x.%d" % i, "scale": 0.6 + 0.13 * i}} for i in range(2, k_)]
         spec += [{"id": "joint", "type": "JointDistributionModel", "distributions": ["prior.%d" % i for i in range(k_)] + ["lik", "lik1"] + ["lik%d" % i for i in range(2, k_)]}]
         loss, params = "joint", ["x.%d" % i for i in range(k_)]
+    elif case["objective"] == "map" and case.get("tree_keep"):
+        taxa = {"id": "taxa", "type": "Taxa", "taxa": [{"id": nm, "type": "Taxon", "attributes": {"date": 0.0}} for nm in "ABCD"]}
+        if case["tree_keep"] == "unrooted":
+            tree = {"id": "tree", "type": "UnRootedTreeModel", "newick": "((A:0.11,B:0.23):0.37,C:0.41,D:0.05);", "taxa": "taxa", "keep_branch_lengths": True,
+                    "branch_lengths": P("x", [0.0] * 5)}
+            prior = {"id": "prior", "type": "Distribution", "distribution": "torch.distributions.Exponential", "x": "x", "parameters": {"rate": 10.0}}
+        else:
+            tree = {"id": "tree", "type": "TimeTreeModel", "newick": "((A:1.0,B:1.0):2.0,(C:1.5,D:1.5):1.5);", "taxa": "taxa", "keep_branch_lengths": True,
+                    "internal_heights": P("x", [9.0] * 3)}
+            prior = {"id": "prior", "type": "Distribution", "distribution": "torch.distributions.Normal", "x": "x", "parameters": {"loc": 2.0, "scale": 3.0}}
+        spec = [taxa, tree, prior, {"id": "joint", "type": "JointDistributionModel", "distributions": ["prior"]}]
+        loss, params = "joint", ["x"]
     elif case["objective"] == "map":
         x = defined("x", n, case, rng)
         spec = [data, x,
